@@ -63,15 +63,30 @@ func vp_C09_reuse() {
 	e2 := vpC09Event(s, "e2", vpBob)
 	rid, _ := spec.NewRoomID(s.room)
 
+	jrEv0, _ := auth.JoinRules()
+	jr, _ := jrEv0.JoinRule()
 	a := newAllowerContext(auth, vpUserIDForSender, *rid)
 	_ = a.allowed(e1)
+	// state resolution clears the provider and refills it with the state the next event needs; the refill may lack
+	// events the previous one had (join rules, power levels) or hold them again
+	refill := vpChoice("refill", "same-provider-untouched", "cleared-same", "cleared-no-join-rules", "cleared-no-power-levels")
+	if refill != "same-provider-untouched" {
+		auth.Clear()
+		for _, ev := range s.events {
+			if refill == "cleared-no-join-rules" && ev.Type() == spec.MRoomJoinRules {
+				continue
+			}
+			if refill == "cleared-no-power-levels" && ev.Type() == spec.MRoomPowerLevels {
+				continue
+			}
+			_ = auth.AddEvent(ev)
+		}
+	}
 	a.update(auth)
 	reused := a.allowed(e2) == nil
 	fresh := Allowed(e2, auth, vpUserIDForSender) == nil
 
 	// KF-C09-1: a self-join under a (knock_)restricted join rule rewrites the cached join rule of the shared checker
-	jrEv, _ := auth.JoinRules()
-	jr, _ := jrEv.JoinRule()
 	n, _ := vpVerNum(ver)
 	e1m, _ := e1.Membership()
 	kf := n >= 8 && e1.Type() == spec.MRoomMember && e1m == spec.Join && (jr == spec.Restricted || jr == spec.KnockRestricted)
